@@ -19,7 +19,8 @@ From Coq Require Import NArith ZArith QArith List Bool Permutation.
 From PV Require Import Gen.GroupConst Clone.GroupSpec Clone.GroupSpecProofs Clone.GroupSpecKCore Clone.GroupCommon
   Clone.GroupConnected Clone.GroupComplete Clone.GroupKCore Clone.GroupStar Clone.GroupLattice Clone.GroupRun
   Clone.GroupConnectedProofs Clone.GroupCompleteProofs Clone.GroupKCoreProofs Clone.GroupStarProofs
-  Clone.GroupAll Clone.GroupBounded Clone.GroupSpecKCoreProofs Clone.GroupKCoreExact Clone.GroupExact.
+  Clone.GroupAll Clone.GroupBounded Clone.GroupSpecKCoreProofs Clone.GroupKCoreExact Clone.GroupExact
+  Clone.GroupNorm Clone.GroupNormProofs.
 Import ListNotations.
 
 (* Every mode, every pair list (any length, duplicates, any order/orientation), every threshold > 0,
@@ -146,6 +147,19 @@ Proof. exact kcore_bounded_all. Qed.
 Theorem C10_connected_spec_bounded : forallb connected_ok graphs4_3 = true.
 Proof. exact connected_bounded. Qed.
 
+(* ---------------------------------------------------------------- float similarities *)
+(* Pair lists of real detector runs and CLI reports carry arbitrary float64 similarities. The checker
+   looks at them only through [t <= s]; deciding that once per pair (keep the pairs >= t, give them
+   similarity 1, threshold 1) does not change its verdict - every mode, graph, threshold, k, groups. *)
+Theorem C10_checker_normalised : forall m k t G gs,
+  check_contract m k 1%Q (norm_graph t G) gs = check_contract m k t G gs.
+Proof. exact check_contract_norm. Qed.
+
+(* the harness entry point for such cases returns exactly what GroupRun.verdict returns *)
+Theorem C10_verdict_normalised : forall idx mn k t G ord impl,
+  verdict_norm idx mn k t G ord impl = verdict idx mn k t G ord impl.
+Proof. exact verdict_norm_eq. Qed.
+
 Print Assumptions C10_all_modes.
 Print Assumptions C10_connected.
 Print Assumptions C10_complete.
@@ -163,3 +177,5 @@ Print Assumptions C10_kcore_ok_all.
 Print Assumptions C10_kcore_selfpair_refuted.
 Print Assumptions C10_connected_spec.
 Print Assumptions C10_connected_ok_all.
+Print Assumptions C10_checker_normalised.
+Print Assumptions C10_verdict_normalised.
